@@ -1,5 +1,6 @@
 import Proofs.Lemmas.Template
 import Proofs.Lemmas.TemplateEnd
+import Proofs.Lemmas.TemplateVar
 import Proofs.Audit
 
 /-!
@@ -43,16 +44,20 @@ theorem C02_expandYear2_roundtrip (y : Nat) (h1 : 1965 ≤ y) (h2 : y ≤ 2064) 
 
 /-! ### Names → placeholder strings -/
 
-/-- **fields recovered** (fixed-width fragment: literals without regex syntax and the temporal
-placeholders `get_filename` fills; repeated placeholders, directory separators, dots allowed):
-the generated name exists, is parsed, and every placeholder of the template is recovered with
-the string it was written with (`keyStr`), in order of first occurrence (`capsOf`). -/
-theorem C02_fields_recovered (cfg : Cfg) (ctx : Ctx) (hfix : ∀ t ∈ cfg.path, FixedTok t)
+/-- **fields recovered** for every template satisfying the decidable predicate `Unambig`:
+literals without regex syntax (dots, directory separators …), the temporal placeholders
+`get_filename` fills (fixed width, unrestricted position, also adjacent), and user placeholders
+declared as value lists, each followed by a literal whose first character occurs in none of the
+values; repeated placeholders allowed; any length.  The generated name exists, is parsed, and
+every placeholder is recovered with the string it was written with (`keyStr`), in order of
+first occurrence (`capsOf`).  The proof is by priority: an alternative shorter than the value
+dead-ends at the following literal, the value itself succeeds. -/
+theorem C02_fields_recovered (cfg : Cfg) (ctx : Ctx) (hu : Unambig cfg ctx cfg.path)
     (hs : GoodTime ctx.s) (he : GoodTime ctx.e) :
     ∃ name, format cfg cfg.path ctx = .ok name ∧
       parseFilename cfg name = .ok (capsOf ctx cfg.path []) ∧
       ∀ k, Tok.ph k ∈ cfg.path → (capsOf ctx cfg.path []).lookup k = some (keyStr ctx k) := by
-  obtain ⟨items, ps, h1, h2, h3, h4, h5⟩ := compile_pieces_fixed cfg ctx hs he cfg.path [] hfix
+  obtain ⟨items, ps, h1, h2, h3, h5, _⟩ := compile_match_unambig cfg ctx hs he cfg.path [] hu
   refine ⟨ps.flatten, ?_, ?_, ?_⟩
   · unfold format
     simp only [h2]
@@ -60,9 +65,13 @@ theorem C02_fields_recovered (cfg : Cfg) (ctx : Ctx) (hfix : ∀ t ∈ cfg.path,
       rw [List.any_eq_false]; intro c hc; simp [h5 c hc]
     simp [this]
   · unfold parseFilename
-    simp only [h1, matchItems_det items ps h3, h4]
+    simp only [h1, h3]
   · intro k hk
     rw [lookup_capsOf]; simp [hk]
+
+/-- the fixed-width fragment (only literals and temporal placeholders) is unambiguous -/
+theorem C02_fixed_unambig (cfg : Cfg) (ctx : Ctx) (hfix : ∀ t ∈ cfg.path, FixedTok t) :
+    Unambig cfg ctx cfg.path := unambig_of_fixed cfg ctx cfg.path hfix
 
 /-- **no mis-parse** (matcher soundness, whole fragment incl. lazy / alternation / class items):
 an accepted name *is* an instantiation of the compiled template — it splits into one string per
@@ -159,19 +168,21 @@ def Pe (cfg : Cfg) (f : TField) : Bool := cfg.path.contains (.ph (.time true f))
 a full date, the name generated for `(s, e)` is parsed and `_retrieve_time_coverage` works on
 exactly the standardised fields of `s` and `e` (`stdOf`: year from year/year2, month/day from
 month+day/doy, millisecond ↦ µs). -/
-theorem C02_args_recovered (cfg : Cfg) (ctx : Ctx) (hfix : ∀ t ∈ cfg.path, FixedTok t)
+theorem C02_args_recovered (cfg : Cfg) (ctx : Ctx) (hu : Unambig cfg ctx cfg.path)
     (hs : GoodTime ctx.s) (he : GoodTime ctx.e)
     (hsok : StdOK (Ps cfg) ctx.s) (heok : StdOK (Pe cfg) ctx.e) (hdate : HasDate (Ps cfg)) :
-    ∃ name caps, format cfg cfg.path ctx = .ok name ∧ parseFilename cfg name = .ok caps ∧
-      retrieveTimeCoverage cfg caps =
+    ∃ name, format cfg cfg.path ctx = .ok name ∧
+      parseFilename cfg name = .ok (capsOf ctx cfg.path []) ∧
+      retrieveTimeCoverage cfg (capsOf ctx cfg.path []) =
         coverageOf cfg.path (stdOf (Ps cfg) ctx.s) (stdOf (Pe cfg) ctx.e) := by
-  obtain ⟨name, h1, h2, h3⟩ := C02_fields_recovered cfg ctx hfix hs he
-  refine ⟨name, _, h1, h2, ?_⟩
+  obtain ⟨name, h1, h2, h3⟩ := C02_fields_recovered cfg ctx hu hs he
+  have hfill := unambig_time_fillable cfg ctx cfg.path hu
+  refine ⟨name, h1, h2, ?_⟩
   have hraw : ∀ isEnd, fieldVal (capsOf ctx cfg.path []) isEnd =
       rawOf (if isEnd then Pe cfg else Ps cfg) (if isEnd then ctx.e else ctx.s) := by
     intro isEnd
     funext f
-    rw [fieldVal_capsOf ctx hs he cfg.path hfix isEnd f]
+    rw [fieldVal_capsOf_gen ctx hs he cfg.path hfill isEnd f]
     cases isEnd <;> simp [rawOf, Ps, Pe]
   have hne : (capsOf ctx cfg.path []).isEmpty = false := by
     obtain ⟨hy, _⟩ := hdate
@@ -185,7 +196,7 @@ theorem C02_args_recovered (cfg : Cfg) (ctx : Ctx) (hfix : ∀ t ∈ cfg.path, F
     | nil => rw [hc] at this; simp at this
     | cons a b => rfl
   unfold retrieveTimeCoverage
-  simp only [hne, capsNumeric_capsOf ctx hs he cfg.path [] hfix, Bool.false_eq_true, ↓reduceIte,
+  simp only [hne, capsNumeric_capsOf_gen ctx hs he cfg.path [] hfill, Bool.false_eq_true, ↓reduceIte,
     Bool.not_true]
   unfold toDatetimeArgs
   have h0 := hraw false
@@ -332,6 +343,129 @@ theorem C02_handler_overrides (cfg : Cfg) (tc : Option Int) (name : List Char) (
 theorem C02_handler_silent (a : Info) : a.update {} = a := by
   cases a; simp [Info.update, attrUpdate]
 
+/-! ### The property's own sentence: `get_info (get_filename (s, e), fill = a)` -/
+
+theorem singleFile_false_of_ph (path : List Tok) (k : Key) (h : Tok.ph k ∈ path) :
+    singleFile path = false := by
+  unfold singleFile
+  rw [List.all_eq_false]
+  exact ⟨_, h, by simp⟩
+
+theorem hasDate_ph (cfg : Cfg) (h : HasDate (Ps cfg)) : ∃ k, Tok.ph k ∈ cfg.path := by
+  rcases h.1 with h | h
+  · exact ⟨_, by simpa [Ps] using h⟩
+  · exact ⟨_, by simpa [Ps] using h⟩
+
+/-- the user placeholders come back as attributes with their fill values -/
+theorem attrs_lookup (cfg : Cfg) (ctx : Ctx) (hu : Unambig cfg ctx cfg.path) (a : Attrs) :
+    ∀ n v, Tok.ph (.user n) ∈ cfg.path → ctx.fill.lookup n = some v →
+      (attrUpdate a (userCaps (capsOf ctx cfg.path []))).lookup n = some v := by
+  intro n v hmem hfill
+  rw [attrs_capsOf ctx cfg.path n hmem a]
+  simp [keyStr, hfill]
+
+/-- **attributes recovered**: whatever times `get_info` reports for the generated name, every
+user placeholder of the template is reported as an attribute holding its fill value -/
+theorem C02_attrs_recovered (cfg : Cfg) (ctx : Ctx) (hu : Unambig cfg ctx cfg.path)
+    (hs : GoodTime ctx.s) (he : GoodTime ctx.e) (tc : Option Int) (hd : Info) :
+    ∃ name, format cfg cfg.path ctx = .ok name ∧
+      ∀ a b attrs, getInfo cfg .filename tc hd name = .ok (a, b, attrs) →
+        ∀ n v, Tok.ph (.user n) ∈ cfg.path → ctx.fill.lookup n = some v →
+          attrs.lookup n = some v := by
+  obtain ⟨name, h1, h2, _⟩ := C02_fields_recovered cfg ctx hu hs he
+  refine ⟨name, h1, ?_⟩
+  intro a b attrs hg n v hmem hfill
+  obtain ⟨caps, hp, hattrs⟩ := getInfo_filename_attrs cfg tc hd name a b attrs hg
+  rw [h2] at hp
+  simp only [Except.ok.injEq] at hp
+  subst hp; subst hattrs
+  exact attrs_lookup cfg ctx hu [] n v hmem hfill
+
+/-- hypotheses shared by the round-trip theorems: an unambiguous template whose start fields
+name a full date, `s` and `e` in the claimed ranges, `s` given at the template's resolution -/
+structure RoundTrip (cfg : Cfg) (ctx : Ctx) : Prop where
+  unambig : Unambig cfg ctx cfg.path
+  goodS : GoodTime ctx.s
+  goodE : GoodTime ctx.e
+  stdS : StdOK (Ps cfg) ctx.s
+  stdE : StdOK (Pe cfg) ctx.e
+  date : HasDate (Ps cfg)
+  atRes : truncTo (Ps cfg) ctx.s = ctx.s
+
+theorem roundtrip_tail (cfg : Cfg) (ctx : Ctx) (h : RoundTrip cfg ctx) (tc : Option Int) (hd : Info)
+    (e' : DateTime)
+    (hcov : coverageOf cfg.path (stdOf (Ps cfg) ctx.s) (stdOf (Pe cfg) ctx.e) =
+      .ok (some ctx.s, some e')) :
+    ∃ name attrs, format cfg cfg.path ctx = .ok name ∧
+      getInfo cfg .filename tc hd name = .ok (ctx.s, e', attrs) ∧
+      ∀ n v, Tok.ph (.user n) ∈ cfg.path → ctx.fill.lookup n = some v →
+        attrs.lookup n = some v := by
+  obtain ⟨name, h1, h2, hr⟩ :=
+    C02_args_recovered cfg ctx h.unambig h.goodS h.goodE h.stdS h.stdE h.date
+  obtain ⟨k, hk⟩ := hasDate_ph cfg h.date
+  have hg := C02_getInfo_filename cfg tc hd name _ ctx.s (some e')
+    (singleFile_false_of_ph _ k hk) h2 (hr.trans hcov)
+  exact ⟨name, _, h1, hg, attrs_lookup cfg ctx h.unambig []⟩
+
+/-- **round trip, end spelled out as completely as the start**:
+`get_info(get_filename((s, e), fill = a))` reports start `s`, end `e` and the attributes `a` -/
+theorem C02_roundtrip_full (cfg : Cfg) (ctx : Ctx) (h : RoundTrip cfg ctx) (tc : Option Int)
+    (hd : Info) (hdE : HasDate (Pe cfg))
+    (h1 : Ps cfg .hour = true → Pe cfg .hour = true)
+    (h2 : Ps cfg .minute = true → Pe cfg .minute = true)
+    (h3 : Ps cfg .second = true → Pe cfg .second = true)
+    (h4 : Ps cfg .millisecond = true → Pe cfg .millisecond = true)
+    (hresE : truncTo (Pe cfg) ctx.e = ctx.e) (hle : lt ctx.e ctx.s = false) :
+    ∃ name attrs, format cfg cfg.path ctx = .ok name ∧
+      getInfo cfg .filename tc hd name = .ok (ctx.s, ctx.e, attrs) ∧
+      ∀ n v, Tok.ph (.user n) ∈ cfg.path → ctx.fill.lookup n = some v →
+        attrs.lookup n = some v := by
+  apply roundtrip_tail cfg ctx h tc hd ctx.e
+  have := C02_end_full cfg.path (Ps cfg) (Pe cfg) ctx.s ctx.e h.goodS.1 h.goodE.1 h.date hdE
+    h1 h2 h3 h4 (by rw [hresE, h.atRes]; exact hle)
+  rw [this, hresE, h.atRes]
+
+/-- **round trip, end written with sub-day fields only** (`{…}{hour}{minute}-{end_hour}{end_minute}`):
+for `s ≤ e < s + 1 day` the reported coverage is `(s, e)` — also when `e` lies on the next
+day, in the next month or year — and the attributes are `a` -/
+theorem C02_roundtrip_subday (cfg : Cfg) (ctx : Ctx) (h : RoundTrip cfg ctx) (tc : Option Int)
+    (hd : Info) (hq : SubDay (Pe cfg))
+    (hte : (combine (Ps cfg) (Pe cfg) ctx.s ctx.e).mi = ctx.e.mi ∧
+      (combine (Ps cfg) (Pe cfg) ctx.s ctx.e).s = ctx.e.s ∧
+      (combine (Ps cfg) (Pe cfg) ctx.s ctx.e).us = ctx.e.us)
+    (hle : toMicros ctx.s ≤ toMicros ctx.e) (hlt : toMicros ctx.e < toMicros ctx.s + 86400000000) :
+    ∃ name attrs, format cfg cfg.path ctx = .ok name ∧
+      getInfo cfg .filename tc hd name = .ok (ctx.s, ctx.e, attrs) ∧
+      ∀ n v, Tok.ph (.user n) ∈ cfg.path → ctx.fill.lookup n = some v →
+        attrs.lookup n = some v := by
+  apply roundtrip_tail cfg ctx h tc hd ctx.e
+  exact C02_end_partial_recovered cfg.path (Ps cfg) (Pe cfg) ctx.s ctx.e h.goodS.1 h.goodE.1
+    h.date (fun _ => rfl) hq h.atRes hte hle hlt
+
+/-- **round trip, template without end fields**: the end is `s + time_coverage`, or `s` for
+discrete files (no `time_coverage`) -/
+theorem C02_roundtrip_default (cfg : Cfg) (ctx : Ctx) (h : RoundTrip cfg ctx) (hd : Info)
+    (hnoend : ∀ f, Pe cfg f = false) :
+    ∃ name attrs, format cfg cfg.path ctx = .ok name ∧
+      getInfo cfg .filename none hd name = .ok (ctx.s, ctx.s, attrs) ∧
+      (∀ δ e', addDelta ctx.s δ = .ok e' →
+        getInfo cfg .filename (some δ) hd name = .ok (ctx.s, e', attrs)) ∧
+      ∀ n v, Tok.ph (.user n) ∈ cfg.path → ctx.fill.lookup n = some v →
+        attrs.lookup n = some v := by
+  obtain ⟨name, h1, h2, hr⟩ :=
+    C02_args_recovered cfg ctx h.unambig h.goodS h.goodE h.stdS h.stdE h.date
+  obtain ⟨k, hk⟩ := hasDate_ph cfg h.date
+  have hcov := C02_end_default cfg.path (Ps cfg) ctx.s (stdOf (Pe cfg) ctx.e) h.goodS.1 h.date
+    (stdOf_empty _ _ hnoend)
+  rw [h.atRes] at hcov
+  have hsf := singleFile_false_of_ph _ k hk
+  refine ⟨name, _, h1, ?_, ?_, attrs_lookup cfg ctx h.unambig []⟩
+  · exact C02_getInfo_filename cfg none hd name _ ctx.s none hsf h2 (hr.trans hcov)
+  · intro δ e' hadd
+    have := C02_getInfo_filename cfg (some δ) hd name _ ctx.s none hsf h2 (hr.trans hcov)
+    simp only [hadd] at this
+    exact this
+
 /-! ### Non-vacuity and executable sanity tests (tests, not theorems) -/
 
 section Examples
@@ -367,6 +501,26 @@ example : format { path := [.lit 'a', .ph (.user "sat")] } [.lit 'a', .ph (.user
 #guard matchItems [(.lazy 1, some (.user "a")), (.char '_', none), (.alt ["ab".toList, "abc".toList], some (.user "b")), (.char '.', none)]
         "x_y_abc.".toList = some [(.user "a", "x_y".toList), (.user "b", "abc".toList)]
 
+-- a template with a repeated value-list placeholder, sub-day end, roll-over into the next year
+def exPath2 : List Tok :=
+  [.lit '/', .ph (.user "sat"), .lit '/', .ph (.time false .year), .ph (.time false .month),
+   .ph (.time false .day), .lit '_', .ph (.time false .hour), .ph (.time false .minute), .lit '-',
+   .ph (.time true .hour), .ph (.time true .minute), .lit '_', .ph (.user "sat"), .lit '.',
+   .lit 'n', .lit 'c']
+def exCfg2 : Cfg := { path := exPath2, env := [("sat", .alt ["noaa".toList, "noaa18".toList, "metop".toList])] }
+def exCtx2 : Ctx := { s := exS, e := exE, fill := [("sat", "noaa18".toList)] }
+
+example : RoundTrip exCfg2 exCtx2 := by
+  refine ⟨?_, by unfold GoodTime Valid; decide, by unfold GoodTime Valid; decide,
+    by unfold StdOK NoSub; decide, by unfold StdOK NoSub; decide, by unfold HasDate; decide,
+    by decide⟩
+  simp [exCfg2, exPath2, exCtx2, Unambig, UserOK, Cfg.regexOf, regexActive, special, fillable,
+    List.lookup]
+example : SubDay (Pe exCfg2) := by unfold SubDay NoSub; decide
+#guard format exCfg2 exPath2 exCtx2 = .ok "/noaa18/20161231_2330-0015_noaa18.nc".toList
+#guard getInfo exCfg2 .filename none {} "/noaa18/20161231_2330-0015_noaa18.nc".toList
+        = .ok (exS, exE, [("sat", "noaa18".toList)])
+
 end Examples
 
 assert_axioms C02_parse_pad C02_ofYearDoy_doyOf C02_toMicros_strictMono C02_lt_iff_lex
@@ -374,3 +528,4 @@ assert_axioms C02_parse_pad C02_ofYearDoy_doyOf C02_toMicros_strictMono C02_lt_i
   C02_rejected C02_unknown_placeholder C02_unfilled_placeholder C02_args_recovered
   C02_start_roundtrip C02_truncTo_id C02_end_default C02_end_full C02_getInfo_filename
   C02_handler_overrides C02_handler_silent C02_end_partial C02_end_partial_recovered
+  C02_fixed_unambig C02_attrs_recovered C02_roundtrip_full C02_roundtrip_subday C02_roundtrip_default
